@@ -157,6 +157,40 @@ def grammar(ctx, R_):
                     R_.call("jwe.decrypt_json", f"general/any {h!r} key={kn}", lambda: jwe.decrypt_json(copy.deepcopy(d), key, registry=any_reg, sender_key=sender))
 
 
+EMBEDDED_VALUES = [None, True, 0, 1.5, "", "x", "AA", "sig", "enc", "deriveKey", [], ["deriveKey"], ["sign", "verify"], [1], [None], [[]], [["deriveKey"]], [{}],
+                   ["deriveKey", {}], ["deriveKey", ["x"]], {}, {"a": []}, "P-256", "X25519", "EC", "OKP", "é", "A" * 43, "_" * 43, 2 ** 70]
+
+
+def embedded_keys(ctx, R_):
+    """epk / jwk header members that are well-formed public JWKs except for ONE member of every JSON type
+    (including unhashable values nested in lists), for every key-agreement algorithm and entry point."""
+    from joserfc import jws, jwe, jwt
+    rng = ctx.rng
+    keys = keyring()
+    frac = 0.25 if ctx.tier == "quick" else 1.0
+    for kn, crv_key in (("p256", "p256b"), ("x25519", "x25519b"), ("p384", "p384")):
+        key = keys[kn]
+        good = K.key(crv_key, private=False).as_dict(private=False)
+        for m in list(good) + ["d", "use", "key_ops", "alg", "kid", "x5c", "oth", "extra"]:
+            for v in EMBEDDED_VALUES:
+                if rng.random() > frac:
+                    continue
+                epk = dict(good)
+                epk[m] = v
+                for alg in ("ECDH-ES", "ECDH-ES+A128KW", "ECDH-1PU"):
+                    h = {"alg": alg, "enc": "A128GCM", "epk": epk}
+                    tok = jb(h) + b"." + (b"" if "+" not in alg else b64(b"k" * 24)) + b"." + b64(b"i" * 12) + b"." + b64(b"c" * 5) + b"." + b64(b"t" * 16)
+                    sender = keys["p256"] if alg == "ECDH-1PU" else None
+                    R_.call("jwe.decrypt_compact", f"epk.{m}={v!r} {alg} key={kn}", lambda: jwe.decrypt_compact(tok, key, algorithms=E.ALL_NAMES, sender_key=sender))
+                    d = {"protected": jb({"enc": "A128GCM"}).decode(), "iv": b64(b"i" * 12).decode(), "ciphertext": "Y2M", "tag": "dHR0dHR0dHR0dHR0dHR0dA",
+                         "header": {"alg": alg, "epk": epk}}
+                    R_.call("jwe.decrypt_json", f"flat epk.{m}={v!r} {alg} key={kn}", lambda: jwe.decrypt_json(copy.deepcopy(d), key, algorithms=E.ALL_NAMES, sender_key=sender))
+                    R_.call("jwt.decode(jwe)", f"epk.{m}={v!r} {alg} key={kn}", lambda: jwt.decode(tok, key, registry=jwe.JWERegistry(algorithms=E.ALL_NAMES)))
+                # a "jwk" header member of a JWS
+                t3 = jb({"alg": "ES256", "jwk": epk}) + b".cA." + b64(b"s" * 64)
+                R_.call("jws.deserialize_compact", f"jwk.{m}={v!r} key={kn}", lambda: jws.deserialize_compact(t3, keys["p256"], algorithms=J.ALL_ALGS))
+
+
 def mutations(ctx, R_):
     from joserfc import jws, jwe, jwt, rfc7797
     rng = ctx.rng
@@ -371,6 +405,7 @@ def random_bytes(ctx, R_):
 def run(ctx):
     R_ = Runner(ctx)
     grammar(ctx, R_)
+    embedded_keys(ctx, R_)
     mutations(ctx, R_)
     inner(ctx, R_)
     random_bytes(ctx, R_)
